@@ -25,6 +25,12 @@ TEXT = {
          "floats as reals; array uncertainties only in the bounded stand-in"),
  "C09": ("proof", "Global state G = (unit table rows and key order, prefix keys, conversion-type list). For scopes registering 0-3 units of every kind (plain, prefixed, quantity-valued, existing/new conversion type) and for failing registrations (duplicate at each index, prefixed clash, malformed): G at every exit of close()/__exit__() (normal and exceptional body) and at every EXCEPTIONAL exit of the constructor equals G before the scope; nested and repeated scopes. Bounded stand-in: 150+ definition sequences x body failure x nesting and DIP texts with $unit.",
          "registration sequences enumerated (structure), magnitudes symbolic; dict/list semantics of the executor trusted"),
+ "C10": ("other", "Element.__init__ for 42 species spellings x natural/most-abundant with symbolic proportion: mass, Z, N, e equal the isotope-table values computed independently (N=A-Z, e=Z+charge, mass=M+charge*m_e, weighted mean / most abundant). Substance.__init__ on ~80 formulas of the documented notation (nesting, multipliers, adjacency, isotope/charge suffixes, nucleons, explicit + and *, blanks): species counts equal the structural expansion, totals equal count-weighted sums. __add__, __mul__ (symbolic multiplier), Composite.add (symbolic proportion). Structure enumerated -> bounded_structure.",
+         "regex preprocessing runs in CPython on concrete formulas; np reductions modelled as folds"),
+ "C11": ("other", "Material.data_composite for enumerated mixtures with SYMBOLIC proportions: x_i = 100 p_i/sum p, X_i = 100 p_i m_i/sum p m (number mode) and the mass-mode duals, sums = 100, for all positive proportions (z3, nonlinear reals); scaling invariance and number/mass duality as unbounded lemmas; Composite.add keeps the norm in step with the counts. Bounded stand-in: random mixtures, scaled copies, re-specification by mass fractions, incremental construction, a+b.",
+         "mixtures enumerated (1-3 substances in quick, 4 in thorough); component masses are the table values"),
+ "C12": ("other", "Constructors with a density and volume attached, for ALL positive densities/volumes and three units each: n = rho/M, rho = n*M, mass = rho*V, per-component n_i = p_i n, rho_i = p_i m_i n, sums equal rho and mass; string and dictionary forms (re-normalisation after each component); number-fraction materials. One open finding (F17: mass-fraction materials with a density raise).",
+         "unit triples enumerated; densities symbolic"),
  "C20": ("proof", "DataPlotGrid: every obligation of the grid bijection (constructor invariant nrows=ceil(n/ncols), per-yield cell/index relation in both orders, one yield per index, onto-lemmas) generated from the real AST and discharged by z3 for ALL n and ALL column counts (nonlinear integer VCs with explicit quotient witnesses). ParameterTable / RowCollector / DataCombination: contracts against an ordered-map / row-list / Cartesian-product view, discharged for all cell values but for enumerated structure sizes <=3 (reported as bounded_structure, not counted as proved), plus a bounded random op-sequence stand-in on the real classes.",
          "assumed contracts of np.argsort/np.array/itertools.product (listed in evidence); numpy-array storage mode and dict-valued grids only in the bounded stand-in"),
 }
